@@ -111,7 +111,7 @@ UNIT_TRUSTED["packet_encode"] = [
 ]
 
 # minimum number of functions that must produce obligations / of must-fail twins that must run
-FLOORS = {"daemon_fsm": 30, "daemon_gr": 4, "daemon_peer_tx": 9, "table_cmp": 20, "packet_validate": 1, "packet_parse": 1, "table_rpki": 5, "table_policy": 6, "daemon_export": 11, "packet_bmp": 6, "packet_mrt": 8, "packet_aspath": 8, "packet_encode": 4}
+FLOORS = {"daemon_fsm": 30, "daemon_gr": 4, "daemon_peer_tx": 9, "table_cmp": 20, "packet_validate": 1, "packet_parse": 1, "table_rpki": 5, "table_policy": 6, "daemon_export": 11, "packet_bmp": 6, "packet_mrt": 8, "packet_aspath": 10, "packet_encode": 4}
 TWIN_FLOORS = {"daemon_fsm": 8, "daemon_gr": 3, "daemon_peer_tx": 2, "table_cmp": 4, "packet_validate": 1, "packet_parse": 1, "table_rpki": 1, "table_policy": 1, "daemon_export": 1, "packet_bmp": 1, "packet_mrt": 1, "packet_aspath": 1, "packet_encode": 1}
 
 PLAN = {
@@ -130,7 +130,8 @@ PLAN = {
     "C12": {"verus": ["table_rpki"], "kani": ["c12_covering_key_v4", "c12_covering_key_v6"], "level": "proof"},
     "C14": {"verus": ["table_policy"], "level": "proof"},
     "C16": {"verus": ["daemon_fsm"], "kani": ["c16_ipnet_contains_v4", "c16_ipnet_contains_v6"], "level": "proof"},
-    "C04": {"verus": ["packet_encode"], "level": "proof"},
+    "C04": {"verus": ["packet_encode", "packet_aspath"], "level": "proof",
+            "fn_filter": {"packet_aspath": ["encode", "encode_wire", "value", "binary"]}},
     "C02": {"verus": ["table_cmp", "packet_aspath"], "level": "proof",
             "fn_filter": {"packet_aspath": ["as_path_length"]}},
     "C19": {"verus": ["packet_bmp", "packet_mrt"], "level": "proof"},
